@@ -40,6 +40,11 @@ var c19Facades = map[string]facadeDef{
 	"Pb": {"", "prefix", "/p/{b}x/", nil},
 	// family 2: a prefix whose routes share one parameter node next to two equally ranked siblings
 	"Px": {"", "prefix", "/p/{x}/", nil},
+	// family 3 (router with interceptors): a resource whose pattern only this router's interceptor set can read -
+	// the parameter name is no regexp group name, the rule is an interceptor name
+	"Ri": {"", "resource", "/ri/{u-id:digit}", nil},
+	"Pj": {"", "prefix", "/pj/{u-id:digit}", nil},
+	"Rj": {"Pj", "resource", "/{编号:word}", nil},
 }
 
 // c19Sys is router A together with its facade objects. They are made once, when the router is made, and live as
@@ -49,6 +54,9 @@ type c19Sys struct {
 	a    *Router
 	facs map[string]any
 }
+
+// facadeBroken stands for a facade object whose creation panicked.
+type facadeBroken struct{ pv any }
 
 func newC19Sys(cfg RouterCfg) *c19Sys {
 	s := &c19Sys{a: NewRouter(cfg, mux.WithURLDomain("https://d")), facs: map[string]any{}}
@@ -63,21 +71,29 @@ func newC19Sys(cfg RouterCfg) *c19Sys {
 			parent = build(d.Parent)
 		}
 		var f any
-		switch p := parent.(type) {
-		case *Router:
-			if d.Kind == "prefix" {
-				f = p.Prefix(d.Arg, mws(nil, d.MW)...)
-			} else {
-				f = p.Resource(d.Arg, mws(nil, d.MW)...)
+		// creating a facade object is a call of the program under test like any other: if it faults, every later
+		// call through that object (or one derived from it) counts as having faulted that way
+		if pv, bad := Guard(func() {
+			switch p := parent.(type) {
+			case *Router:
+				if d.Kind == "prefix" {
+					f = p.Prefix(d.Arg, mws(nil, d.MW)...)
+				} else {
+					f = p.Resource(d.Arg, mws(nil, d.MW)...)
+				}
+			case *mux.Prefix[*hv.H]:
+				if d.Kind == "prefix" {
+					f = p.Prefix(d.Arg, mws(nil, d.MW)...)
+				} else {
+					f = p.Resource(d.Arg, mws(nil, d.MW)...)
+				}
+			case facadeBroken:
+				panic(p.pv)
+			default:
+				panic("harness: bad facade " + name)
 			}
-		case *mux.Prefix[*hv.H]:
-			if d.Kind == "prefix" {
-				f = p.Prefix(d.Arg, mws(nil, d.MW)...)
-			} else {
-				f = p.Resource(d.Arg, mws(nil, d.MW)...)
-			}
-		default:
-			panic("harness: bad facade " + name)
+		}); bad {
+			f = facadeBroken{pv}
 		}
 		s.facs[name] = f
 		return f
@@ -171,9 +187,29 @@ func c19RankAlphabet() []fstep {
 	}
 }
 
+// c19IcptAlphabet (family 3, router with the I1 interceptors)
+func c19IcptAlphabet() []fstep {
+	return []fstep{
+		{F: "Ri", K: "get"},
+		{F: "Ri", K: "post", MW: []string{"M1"}},
+		{F: "Ri", K: "remove", Ms: []string{"GET"}},
+		{F: "Ri", K: "clean"},
+		{F: "Ri", K: "url", Strict: true, Params: map[string]string{"u-id": "5"}},
+		{F: "Ri", K: "url", Params: map[string]string{"u-id": "x"}},
+		{F: "Rj", K: "get"},
+		{F: "Rj", K: "url", Strict: true, Params: map[string]string{"u-id": "5", "编号": "ab"}},
+		{F: "Pj", K: "get", P: "/z"},
+		{F: "Pj", K: "clean"},
+		{F: "", K: "get", P: "/ri/{u-id:digit}"},
+	}
+}
+
 func c19AlphabetOf(family int) []fstep {
 	if family == 1 {
 		return c19OrderAlphabet()
+	}
+	if family == 3 {
+		return c19IcptAlphabet()
 	}
 	if family == 2 {
 		return c19RankAlphabet()
@@ -258,6 +294,8 @@ func applyFacade(sys *c19Sys, s fstep) (string, any, bool) {
 			return
 		}
 		switch f := fac.(type) {
+		case facadeBroken:
+			panic(fmt.Sprintf("creating the facade object %s panicked: %v", s.F, f.pv))
 		case *mux.Prefix[*hv.H]:
 			switch s.K {
 			case "get":
@@ -381,11 +419,24 @@ var c19RankProbes = func() []hv.Req {
 	return append(qs, hv.Req{Method: "OPTIONS", Path: "*"})
 }()
 
+var c19IcptProbes = func() []hv.Req {
+	var qs []hv.Req
+	for _, p := range []string{"/ri/5", "/ri/x", "/pj/5/ab", "/pj/5/z", "/pj/5", "/pj/x/ab"} {
+		for _, m := range []string{"GET", "POST", "OPTIONS"} {
+			qs = append(qs, hv.Req{Method: m, Path: p})
+		}
+	}
+	return append(qs, hv.Req{Method: "OPTIONS", Path: "*"})
+}()
+
 func c19Vector(r *Router, family int) []string {
 	v := []string{"Routes(): " + RoutesString(RoutesOf(r))}
 	probes := c19Probes
 	if family == 2 {
 		probes = c19RankProbes
+	}
+	if family == 3 {
+		probes = c19IcptProbes
 	}
 	for _, q := range probes {
 		v = append(v, q.String()+" -> "+hv.Serve(r, q).Summary())
@@ -520,11 +571,13 @@ func init() {
 			"the facade objects are created once, with the router, and live as long as it does; Router.Use is in the alphabet, so a facade is also called after the router's middleware list changed",
 			"second family (depth+1): two overlapping parameter siblings /p/{a}/x and /p/{b}x with routes of their own and below them, registered in either order, Prefix.Clean below either of them, removals, the index block: which of the two answers /p/1/x... must be what the equivalent Remove calls leave",
 			"third family (depth+2): equally ranked parameter siblings /p/{t}- and /p/{u}+ (+-) that both match /p/1+-, next to Prefix(/p/{x}/) with two routes: Prefix.Clean against removing them one by one (which re-joins the shared node on the way)",
+			"fourth family (router with interceptors): Resource and Prefix.Resource objects whose patterns only that router's interceptor set can read ({u-id:digit}, {编号:word}); creating a facade object counts as a call of the program",
 			"dedup on the pair of reflective dumps")
 		for _, cfg := range []RouterCfg{{}, {Trace: true}} {
 			explore.BFS(rc, "c19/expand", c19Cfg{Router: cfg}, depth, true, "C19 "+cfg.String())
 		}
 		explore.BFS(rc, "c19/expand", c19Cfg{Router: RouterCfg{}, Family: 1}, depth+1, true, "C19 overlapping parameter siblings")
 		explore.BFS(rc, "c19/expand", c19Cfg{Router: RouterCfg{}, Family: 2}, depth+2, true, "C19 equally ranked parameter siblings")
+		explore.BFS(rc, "c19/expand", c19Cfg{Router: RouterCfg{IC: "I1"}, Family: 3}, depth, true, "C19 facades on a router with interceptors")
 	}})
 }
